@@ -18,7 +18,7 @@ import (
 func TestC02(t *testing.T) {
 	rec := mon.Open("C02")
 	defer rec.Finish(t)
-	n := rec.N(3000, 200000)
+	n := rec.N(12000, 200000)
 	for c := 0; c < n; c++ {
 		if rec.Mine(c) {
 			runLog(rec, c)
